@@ -371,6 +371,7 @@ class TS:
         self.branch_adts = ()       # ADT name suffixes whose undecided `match` emits BRANCH events
         self.effect_callees = None  # regex: calls reported as ("EFFECT", q, fn, block)
         self.no_inline = set()      # callees never inlined (reported as EFFECT / skipped instead)
+        self.handler_nesting = 2    # how many on_task handler frames may nest
         self.on_task = self._find_on_task()
         self._hook_effect = {}
         self._self_only = {}
@@ -897,7 +898,7 @@ class TS:
         # ---- emit_task_event runs the on_task handler synchronously --------------------------------
         if q == Q_EMIT_EVENT and ev is not None and ev[0] == "EMIT_EVENT" and depth < self.maxdepth + 3:
             # the handler may nest (a hook that revives the task and reviews it emits again): two levels
-            if sum(1 for f in frames if f.fn.q == self.on_task.q) < 2:
+            if sum(1 for f in frames if f.fn.q == self.on_task.q) < self.handler_nesting:
                 fr2 = Frame(self.on_task, (2,), (), retblk=nxt, callblk=b, saved=tuple(sorted(env2.items(), key=repr)), life=None)
                 push(0, s=s2, cok=cok2, mon=mon2, env={}, frames=frames + (fr2,), ev=ev)
                 return
